@@ -77,6 +77,7 @@ func c06a(c *Ctx) {
 	}
 	cmdT := c.term(fn, cmds[0])
 	n := 0
+	c06aScriptName(c, fn)
 	// the record lists only grow at their end, one record at a time: labels are numbered in the
 	// order of the list, which must be the order of appearance
 	for _, unit := range c.unitOf(fn) {
@@ -1176,4 +1177,101 @@ func labelCallMatches(c *Ctx, fn *ssa.Function, v ssa.Value, labelFn, a0, a1 str
 		return false
 	}
 	return c.term(fn, call.Call.Args[0]) == a0 && c.term(fn, call.Call.Args[1]) == a1
+}
+
+// c06aScriptName: the name that labels of inline texts and movements are made from is the name of
+// the script being parsed. The record takes it from a parameter of parseCommandStatement; every
+// function on the way down hands its own such parameter on, and where the chain starts (a script
+// statement, a map script with a body) the name handed in is the very name given to the script.
+func c06aScriptName(c *Ctx, fn *ssa.Function) {
+	type slot struct {
+		fn  *ssa.Function
+		idx int
+	}
+	in := map[slot]bool{}
+	var work []slot
+	for _, rec := range []string{"impText", "impMovement"} {
+		for _, st := range storesToField(fn, "parser", rec, "scriptName") {
+			par, ok := st.Val.(*ssa.Parameter)
+			c.Check(ok, "script-name/record-holds-the-parameter/"+rec, c.W.Pos(st.Pos()), "the record's script name is the name parseCommandStatement was given", "the record's script name is "+pretty(c.term(fn, st.Val))+", not the script name handed to parseCommandStatement")
+			if !ok {
+				continue
+			}
+			for i, p := range fn.Params {
+				if p == par && !in[slot{fn, i}] {
+					in[slot{fn, i}] = true
+					work = append(work, slot{fn, i})
+				}
+			}
+		}
+	}
+	if len(work) == 0 {
+		c.Bad("script-name/record-holds-the-parameter", c.W.FuncPos(fn), "no record field scriptName is filled from a parameter of parseCommandStatement")
+		return
+	}
+	// first the chain (who is given the name), then the hand-overs
+	for len(work) > 0 {
+		s := work[0]
+		work = work[1:]
+		for _, caller := range c.W.Funcs {
+			if isTestFunc(c.W, caller) {
+				continue
+			}
+			for _, ci := range callsIn(caller) {
+				if callee(ci) != s.fn || s.idx >= len(ci.Common().Args) {
+					continue
+				}
+				if par, isPar := ci.Common().Args[s.idx].(*ssa.Parameter); isPar {
+					for i, p := range caller.Params {
+						if p == par && !in[slot{caller, i}] {
+							in[slot{caller, i}] = true
+							work = append(work, slot{caller, i})
+						}
+					}
+				}
+			}
+		}
+	}
+	nCalls, nRoots := 0, 0
+	var slots []slot
+	for s := range in {
+		slots = append(slots, s)
+	}
+	sort.Slice(slots, func(i, j int) bool { return slots[i].fn.Name() < slots[j].fn.Name() })
+	for _, s := range slots {
+		for _, caller := range c.W.Funcs {
+			if isTestFunc(c.W, caller) {
+				continue
+			}
+			own := -1
+			for i := range caller.Params {
+				if in[slot{caller, i}] {
+					own = i
+				}
+			}
+			for _, ci := range callsIn(caller) {
+				if callee(ci) != s.fn || s.idx >= len(ci.Common().Args) {
+					continue
+				}
+				nCalls++
+				arg := ci.Common().Args[s.idx]
+				key := fmt.Sprintf("script-name/%s->%s@%d", caller.Name(), s.fn.Name(), c.T(caller).callOrd[ci])
+				if own >= 0 {
+					c.Check(arg == ssa.Value(caller.Params[own]), key, c.W.Pos(ci.Pos()), "the script name is handed on", caller.Name()+" was given the script name but hands "+pretty(c.term(caller, arg))+" to "+s.fn.Name()+" instead: inline texts and movements would be labelled after something else than their script")
+					continue
+				}
+				// the chain starts here: the name is the name the script is given
+				nRoots++
+				at := c.term(caller, arg)
+				okRoot := false
+				for _, st := range storesToField(caller, "ast", "Identifier", "Value") {
+					if st.Val == arg || c.term(caller, st.Val) == at {
+						okRoot = true
+					}
+				}
+				c.Check(okRoot, key, c.W.Pos(ci.Pos()), "the script name handed in is the name the script statement gets", caller.Name()+" starts parsing a script body under the name "+pretty(at)+", which is not the name it gives the script: labels of inline texts and movements would not be derived from their script's name")
+			}
+		}
+	}
+	c.Check(nCalls >= 20 && nRoots >= 2, "script-name/census", c.W.FuncPos(fn), fmt.Sprintf("%d hand-overs of the script name followed up to %d script parsers", nCalls, nRoots), fmt.Sprintf("only %d hand-overs of the script name and %d starting points found", nCalls, nRoots))
 }
